@@ -154,6 +154,10 @@ class _ZDA:
             return getattr(self, attr)
         if attr == "coords":
             return {d: ("coord", d) for d in self.dims}
+        if attr == "shape":
+            return getattr(self.data, "shape", None) or tuple(2 for _ in self.dims)
+        if attr == "dtype":
+            return getattr(self.data, "dtype", None) or "uint8"
         if attr == "notnull":
             return native(lambda it_, st_: True)
         if attr == "where":
@@ -222,8 +226,78 @@ def w_accessor(w, cfg):
         w.discharge(f"{tag}.{ob.kind}@{ob.where}", facts, ob.claim, guard=ob.guard, concretize=conc)
 
 
+class _DaskData:
+    """dask array behind a lazy DataArray: identity (what tokenize hashes) and chunks."""
+
+    def __init__(self, ident, chunks):
+        self.ident, self.chunks = ident, chunks
+
+    def pysym_getattr(self, it, st, attr):
+        if attr == "chunks":
+            return self.chunks
+        if attr == "shape":
+            return tuple(sum(c) for c in self.chunks)
+        if attr == "dtype":
+            return "uint8" if self.ident.startswith("zones") else "int16"
+        raise Unsupported(f"dask array.{attr}")
+
+
+def w_dask_name(w, cfg):
+    """ZonalStatistics.mean on a dask-backed cube with an explicit name: the graph layer name must separate every pair of calls that can
+    give different results - `tokenize` is an injective function of the identities it is given (its contract), so two calls that differ in
+    the zone raster, the cube or the dtype must get different names (two layers with one name in one graph silently share blocks)."""
+    from pysym.interp import Instance
+    from pysym.lib import native
+
+    def run(vary):
+        it = C.new_interp(policy="exact")
+        st = State()
+        xx = _ZDA(_DaskData("cube-B" if vary == "cube" else "cube-A", ((1, 1), (2,), (2,))), ("time", "y", "x"), {"nodata": -9999})
+        zones = _ZDA(_DaskData("zones-B" if vary == "zones" else "zones-A", ((2,), (2,))), ("y", "x"), {"nodata": 255})
+        calls = []
+
+        @native
+        def tokenize(it_, st_, *args, **kw):
+            return "tok(" + ",".join(a.ident if isinstance(a, _DaskData) else (getattr(a, "dtype_name", None) or getattr(a, "__name__", None) or str(a))
+                                     for a in args) + ")"
+
+        @native
+        def map_blocks(it_, st_, func, *args, **kw):
+            calls.append((getattr(func, "name", None), args, kw))
+            return ("lazy",)
+        it.lib_overrides["dask.base.tokenize"] = tokenize
+        it.lib_overrides["dask.array.map_blocks"] = map_blocks
+        it.lib_overrides["dask.is_dask_collection"] = native(lambda it_, st_, x: True)
+        it.lib_overrides["xarray.DataArray"] = native(lambda it_, st_, data=None, **kw: ("DataArray", data, kw))
+        cls = it.get_function("hdc.algo.accessors", "ZonalStatistics")
+        cls.link_bases(it)
+        inst = Instance(cls)
+        inst.fields["_obj"] = xx
+        it.call_function(st, cls.methods["mean"], [inst, zones, [0, 1]], {"name": "zm", "dtype": "float64" if vary == "dtype" else "float32"})
+        w.res.encoded.update(it.encoded)
+        return calls, xx, zones
+    base, xx0, z0 = run(None)
+
+    def conc(m, what="zones"):
+        return {"kind": "dask_names", "vary": what}
+    ok = len(base) == 1
+    if ok:
+        fname, args, kw = base[0]
+        ok = (fname == "do_mean" and len(args) >= 5 and args[0] is xx0.data and args[1] is z0.data and args[2] == 2 and args[3] == -9999 and args[4] == 255
+              and list(kw.get("drop_axis", [])) == [1, 2] and list(kw.get("new_axis", [])) == [1, 2]
+              and [tuple(c) for c in kw.get("chunks", [])] == [(1, 1), (2,), (2,)])
+    w.discharge("zonal.mean[dask].block_call_wiring", [], z3.BoolVal(bool(ok)), concretize=lambda m: conc(m, "wiring"))
+    n0 = base[0][2].get("name") if base else None
+    for vary in ("zones", "cube", "dtype"):
+        other, _, _ = run(vary)
+        n1 = other[0][2].get("name") if other else None
+        distinct = isinstance(n0, str) and isinstance(n1, str) and n0 != n1
+        w.discharge(f"zonal.mean[dask].layer_name_separates_calls_with_another_{vary}", [], z3.BoolVal(bool(distinct)),
+                    concretize=lambda m, vary=vary: conc(m, vary))
+
+
 def worker(w, cfg):
-    {"exact": w_exact, "acc": w_accumulator, "accessor": w_accessor}[cfg["kind"]](w, cfg)
+    {"exact": w_exact, "acc": w_accumulator, "accessor": w_accessor, "dask_name": w_dask_name}[cfg["kind"]](w, cfg)
 
 
 def configs(tier):
@@ -240,6 +314,7 @@ def configs(tier):
     cf.append({"kind": "acc", "dtype": "float64"})
     for zdt in ("uint8", "int16", "uint16", "int32", "uint32", "int64"):
         cf.append({"kind": "accessor", "zone_dtype": zdt})
+    cf.append({"kind": "dask_name"})
     return cf
 
 
@@ -265,6 +340,9 @@ def validate(chk, seed):
 
 
 def replay_candidate(chk, c):
+    if c["input"].get("kind") == "dask_names":
+        r = chk.replayer.call("c16_dask_names", vary=c["input"]["vary"])
+        return bool(r["violates"]), r
     if c["input"].get("kind") == "accessor":
         try:
             r = chk.replayer.call("c16_accessor", **{k: v for k, v in c["input"].items() if k != "kind"})
